@@ -549,6 +549,11 @@ func (c *converter) mustCurrentForVar() string {
 }
 
 func (c *converter) varName(name string, global bool) string {
+	// "_" is a special parameter in Bash (the last argument of the previous command) and can't be used as a variable.
+	if name == "_" {
+		name = "__"
+	}
+
 	if c.inFunction() && !global {
 		name = fmt.Sprintf("f%d_%s", c.funcCounter, name)
 	}
